@@ -223,7 +223,7 @@ def run(ctx):
         dist['random_histories'] += 1
     ex = EP.run_property(ctx, EXEC_MASK, exec_monitor, 'lifecycle', [
         ('G-exec', 150, 3000, dict(p_bad=0.5)),
-        ('G-exec-reassign', 80, 1500, dict(p_bad=1.0, bad_kinds=['asg-busy', 'asg-busy', 'asg-order', 'asg-parent'])),
+        ('G-exec-reassign', 80, 1500, dict(p_bad=1.0, bad_kinds=['asg-busy', 'asg-busy', 'asg-order', 'asg-parent', 'asg-dup-op', 'asg-dup-op'])),
         ('G-exec-twins', 30, 500, dict(twins=True)),
         ('G-exec-overlap', 30, 500, dict(overlap=True)),
         ('G-exec-inflight', 80, 1500, dict(p_inflight=0.9, p_bad=0.0)),
